@@ -27,6 +27,7 @@ func TestMain(m *testing.M) {
 	vh.QuietLog()
 	vh.Rule("also: a callback that cancels the context of its own call and then fails")
 	vh.Rule("also: packets of type NORMAL; responses with an ENVCHANGE whose packet size the library refuses (not a number, not a possible size), anywhere in the response, any packetisation: exactly one channel error, members in front reported once, packet size unchanged, everything else delivered with one final DONE, the next response complete")
+	vh.Rule("also: when the callback fails, the returned error carries at least the non-informational server messages that precede the failing package in the response (judged when one call consumed the response up to there)")
 	vh.Main(m, "C03")
 }
 
